@@ -1056,7 +1056,9 @@ func (g *c35g) site(depth int, tnames, cnames []string, gens map[string][]bool) 
 				tn = append(tn, nm)
 			}
 		case k == 1:
-			nm := g.pick(append([]string{"T", "U", "N", "int8", "K"}, tnames...))
+			// (not int8/int/uint16/int64: typed constants are declared with these names, and gomacro
+			// accepts `const N string = 0`, known finding of C04)
+			nm := g.pick(append([]string{"T", "U", "N", "uint8", "K"}, tnames...))
 			te := g.texpr(1, tn, cn, gm, "")
 			if c35mentions(te, nm) {
 				// `type X = ...X...` is a declaration cycle for gomacro's dependency sorter
@@ -1152,7 +1154,13 @@ func (g *c35g) malformed() string {
 		return "(R (g " + nm + strings.Repeat(" undefinedName", len(kinds)) + "))"
 	case 4:
 		// generic function in type position / generic type in expression position
+		var fnames []string
 		for f := range g.gfs {
+			fnames = append(fnames, f)
+		}
+		sort.Strings(fnames)
+		if len(fnames) > 0 {
+			f := g.pick(fnames)
 			return "(R (g " + f + strings.Repeat(" int", len(g.gfs[f])) + "))"
 		}
 		return "(R (fg " + nm + strings.Repeat(" int", len(kinds)) + "))"
